@@ -398,6 +398,8 @@ class Sym:
     def _co(self, o):
         if isinstance(o, Sym):
             return o.p
+        if isinstance(o, numbers.Number):      # includes numpy scalars (which also expose __array__)
+            return lift(o)
         if _is_arraylike(o):
             return None
         return lift(o)
